@@ -318,6 +318,18 @@ theorem encOptions_eq_foldW : ∀ (l : List EdnsOpt) (e : Enc), encOptions e l =
     | error err => rfl
     | ok e1 => exact ih e1
 
+/-- exact output of the option loop: the options one after the other, each with its true length -/
+theorem encOptions_ok {l : List EdnsOpt} {e e' : Enc} (h : encOptions e l = .ok e') :
+    e' = e.put (l.flatMap optionWire) := by
+  rw [encOptions_eq_foldW] at h
+  exact foldW_put (w := encOption) (wire := optionWire) (fun _ _ _ hw => (encOption_ok hw).1) l e e' h
+
+theorem encOptions_step {l : List EdnsOpt} {e e' : Enc} (h : encOptions e l = .ok e') :
+    Step e e' (l.map optionSize).sum := by
+  rw [encOptions_eq_foldW] at h
+  exact (foldW_ok (w := encOption) (size := optionSize) (P := fun _ => True)
+    (fun _ _ _ _ hw => encOption_step hw) l e e' (fun _ _ => trivial) h).1
+
 /-! ## APL items -/
 
 /-- the item with its TRUE address length (and the negation bit) in the AFDLENGTH octet -/
@@ -394,6 +406,17 @@ theorem encApItems_eq_foldW : ∀ (l : List APItem) (e : Enc), encApItems e l = 
     cases encApItem e o with
     | error err => rfl
     | ok e1 => exact ih e1
+
+theorem encApItems_ok {l : List APItem} {e e' : Enc} (h : encApItems e l = .ok e') :
+    e' = e.put (l.flatMap apItemWire) := by
+  rw [encApItems_eq_foldW] at h
+  exact foldW_put (w := encApItem) (wire := apItemWire) (fun _ _ _ hw => (encApItem_ok hw).1) l e e' h
+
+theorem encApItems_step {l : List APItem} {e e' : Enc} (h : encApItems e l = .ok e') :
+    Step e e' (l.map apItemSize).sum := by
+  rw [encApItems_eq_foldW] at h
+  exact (foldW_ok (w := encApItem) (size := apItemSize) (P := fun _ => True)
+    (fun _ _ _ _ hw => encApItem_step hw) l e e' (fun _ _ => trivial) h).1
 
 /-! ## SvcParams -/
 
@@ -521,5 +544,16 @@ theorem encSvcParams_eq_foldW : ∀ (l : List SvcParam) (e : Enc),
     cases encSvcParam e o with
     | error err => rfl
     | ok e1 => exact ih e1
+
+theorem encSvcParams_ok {l : List SvcParam} {e e' : Enc} (h : encSvcParams e l = .ok e') :
+    e' = e.put (l.flatMap svcWire) := by
+  rw [encSvcParams_eq_foldW] at h
+  exact foldW_put (w := encSvcParam) (wire := svcWire) (fun _ _ _ hw => (encSvcParam_ok hw).1) l e e' h
+
+theorem encSvcParams_step {l : List SvcParam} {e e' : Enc} (h : encSvcParams e l = .ok e') :
+    Step e e' (l.map svcSize).sum := by
+  rw [encSvcParams_eq_foldW] at h
+  exact (foldW_ok (w := encSvcParam) (size := svcSize) (P := fun _ => True)
+    (fun _ _ _ _ hw => encSvcParam_step hw) l e e' (fun _ _ => trivial) h).1
 
 end EncLim
